@@ -217,7 +217,8 @@ class KaniSession:
         if rc == -9:
             raise Undecided("kani: timeout after %ds" % timeout)
         if "error: could not compile" in err or "error[E" in err or re.search(r"^error: ", err, re.M) and "Checking harness" not in out:
-            raise Undecided("kani: build error in scratch copy:\n" + err[-4000:])
+            errs = re.findall(r"^error(?:\[E\d+\])?: .*(?:\n(?!error|warning).*){0,12}", err, re.M)
+            raise Undecided("kani: build error in scratch copy:\n" + "\n".join(errs[:6])[:4000])
         res = parse_kani_terse(out)
         res["_wall_s"] = dt
         res["_raw"] = out
